@@ -171,6 +171,17 @@ class AGen:
         gname = next((n[2] for n in m["body"] if n[0] == "grouping"), None)
         if gname and r.random() < 0.35:
             inner.append(("uses", gname))          # uses expanded inside the augment
+        if r.random() < 0.3:
+            # a grouping scoped to the container the augment defines, used there by its bare name or with the module's
+            # own prefix (for a submodule: its belongs-to prefix), directly or from a nested container
+            self.uid += 1
+            lg = "lg%d" % self.uid
+            ref = r.choice([lg, m["prefix"] + ":" + lg])
+            inner.append(("grouping", 1000 + self.uid, lg, [leaf(self.fresh("gl")), cont(self.fresh("gc"), [leaf(self.fresh("gl"))])]))
+            if r.random() < 0.5:
+                inner.append(("uses", ref))
+            else:
+                inner.append(cont(self.fresh("gn"), [("uses", ref), leaf(self.fresh("al"))]))
         c = cont(cont_name, inner)
         if kind in ("choice",):
             x = r.random()
@@ -365,25 +376,32 @@ def go_clean_defects(j):
     return bad
 
 
-def body_names(owner, body):
-    """(name, sub-body) of the nodes a statement list defines, uses of the owner's own top-level groupings expanded"""
+def body_names(owner, body, scopes=()):
+    """(name, sub-body, scopes) of the nodes a statement list defines; uses of groupings of the enclosing statement lists
+    and of the owner's own top-level groupings expanded"""
     out = []
+    here = (body,) + tuple(scopes)
     for n in body:
         k = n[0]
         if k == "uses":
-            g = next((x for x in owner["body"] if x[0] == "grouping" and x[2] == n[1].split(":")[-1]), None)
+            g, gsc = None, ()
+            for i, sc in enumerate(here + (owner["body"],)):
+                g = next((x for x in sc if x[0] == "grouping" and x[2] == n[1].split(":")[-1]), None)
+                if g:
+                    gsc = (here + (owner["body"],))[i:]
+                    break
             if g:
-                out += body_names(owner, g[3])
+                out += body_names(owner, g[3], gsc)
         elif k == "grouping":
             continue
         elif k in ("leaf", "leaflist"):
-            out.append((n[1], None))
+            out.append((n[1], None, ()))
         elif k == "any":
-            out.append((n[2], None))
+            out.append((n[2], None, ()))
         elif k == "rpc":
-            out.append((n[2], None))
+            out.append((n[2], None, ()))
         else:
-            out.append((n[1], n[-1]))
+            out.append((n[1], n[-1], here))
     return out
 
 
@@ -435,11 +453,11 @@ def applied_defects(schema, j):
             if through_implicit_case(node) is not None and not any(b[0] == "case" for b in body) and node["name"] != parts[-1].split(":")[-1] + "#":
                 inner = through_implicit_case(node)
                 # the path named the shorthand member before the case was inserted
-                if all(child_of(inner, nm) is not None for nm, _ in body_names(m, body)):
+                if all(child_of(inner, nm) is not None for nm, _, _ in body_names(m, body)):
                     node = inner
 
             def check(holder, names, where):
-                for nm, sub in names:
+                for nm, sub, sc in names:
                     cs = [c for c in (holder.get("children") or []) if c["name"] == nm]
                     if len(cs) != 1:
                         bad.append("%s: augment %s: %d node(s) named %s below %s" % (m["name"], path, len(cs), nm, where))
@@ -453,7 +471,7 @@ def applied_defects(schema, j):
                             bad.append("%s: augment %s: node %s/%s/%s has namespace %s, not %s" % (m["name"], path, where, nm, nm, inner["ns"], own["ns"]))
                         c = inner
                     if sub:
-                        check(c, body_names(m, sub), where + "/" + nm)
+                        check(c, body_names(m, sub, sc), where + "/" + nm)
             check(node, body_names(m, body), path)
     return bad
 
